@@ -290,6 +290,9 @@ func errTok(err error) string {
 	if strings.Contains(err.Error(), "error parsing regexp") {
 		return "badRegex"
 	}
+	if strings.Contains(err.Error(), "variable matcher") {
+		return "badVariable"
+	}
 	return "otherError"
 }
 
@@ -554,6 +557,14 @@ func genRule(c *hx.Ctx, r *hx.Rng) rule {
 				}
 			}
 			v.model = r.PickS([]string{"", "", "and", "or", "OR", "And"})
+			if r.Chance(2) { // a matcher ParseToVariableMatchItem rejects: the configuration must be refused
+				if r.Bool() {
+					v.regex = "^/a("
+				} else {
+					v.model = "xor"
+				}
+				c.Count("rule=bad-variable-matcher")
+			}
 			x.vars = append(x.vars, v)
 		}
 		if r.Chance(30) {
